@@ -256,8 +256,11 @@ def check(res, tr, how):
             stored = tr.cluster.offsets.get((cons.GROUP, cons.TOPIC, cons.PART))
             if sh.get("processed_then") is not None:
                 # the cluster's stored offset at that moment: the latest acknowledged commit before the firing
-                acked = [ev[3] for ev in log[:fidx] if ev[0] == "srv" and ev[2] == "OffsetCommit"
-                         and ev[3].get("replied") == "sent" and ev[3]["result"] and ev[3]["result"][0]["stored"]]
+                # (in the order the coordinator APPLIED them -- a reply delayed past a later commit's reply does not
+                # make the earlier value the stored one)
+                acked = [e_ for e_ in tr.cluster.history if "req" in e_ and e_["api"] == "OffsetCommit"
+                         and e_.get("recv_idx", 10 ** 12) < fidx and e_.get("result") and e_["result"][0]["stored"]]
+                acked.sort(key=lambda e_: e_["seq"])
                 if acked and acked[-1]["result"][0]["offset"] != sh["processed_then"]:
                     res.violate("shutdown/stored-offset-differs/%s" % mech, "shutdown() succeeded but the coordinator's "
                                 "stored offset is %r, last processed %r" % (acked[-1]["result"][0]["offset"],
